@@ -2,7 +2,8 @@
 
 Inputs: real SCC streams in the three caption modes (pop-on, paint-on, roll-up 2/3/4); control codes doubled, single or
 mixed per code; rows of 0-40 cells drawn from EVERY code of the basic / special / extended tables, with blanks at either
-end, double blanks, the transparent space, mid-row codes (one blank cell), characters erased by a backspace; preambles
+end (incl. rows of 1-3 leading blanks + letters that exceed 32 only when the blanks are counted, as the first or a
+later row of their caption, fixed shapes in every mode), double blanks, the transparent space, mid-row codes (one blank cell), characters erased by a backspace; preambles
 of every style (colours, underline, italics), indents and tab offsets; empty rows (a preamble with no text); in every
 stream one load carries 2-4 rows that end up as captions sharing a start time (non-adjacent rows) or as lines of one
 caption (adjacent rows), and EVERY transmission order of that load is generated (a "group"); long streams of 12-30 loads
@@ -57,6 +58,16 @@ def mk_row(rng, row, n, rich):
     return {"row": row, "indent": indent, "tab": tab, "style": style, "toks": toks, "lo": lo, "hi": hi}
 
 
+def lead_row(rng, row, total=None):
+    """a row that starts with 1-3 blanks; with total 33-35 it exceeds 32 only when the leading blanks are counted"""
+    b = rng.randint(1, 3)
+    total = total if total is not None else rng.choice([32, 33, 33, 33, 32 + b])
+    r = mk_row(rng, row, max(1, total - b), False)
+    r["toks"] = [" "] * b + r["toks"]
+    r["lo"], r["hi"] = g.tokens_bounds(r["toks"])
+    return r
+
+
 def gen_group(rng, shape=None, mode=None, doubled=None):
     """-> (mode, doubled, loads, k): load k is the one emitted in all its transmission orders"""
     mode = mode or rng.choice(["pop", "pop", "paint", "roll2", "roll3", "roll4"])
@@ -82,13 +93,24 @@ def gen_group(rng, shape=None, mode=None, doubled=None):
             full["lo"], full["hi"] = g.tokens_bounds(full["toks"])
             loads.append([full, mk_row(rng, far, 1, False)])
             continue
+        if i == k and shape in ("leading-blank-first", "leading-blank-later"):
+            # a row of 1-3 blanks + letters, 33-35 cells in all, as the first / a later row of its caption (adjacent rows)
+            # together with a row elsewhere on the screen that shares the start time
+            r0 = rng.randint(1, 12)
+            far = rng.choice([r for r in range(1, 16) if r < r0 - 1 or r > r0 + 2])
+            lead = lead_row(rng, r0 if shape == "leading-blank-first" else r0 + 1, rng.choice([33, 33, 34, 35]))
+            other = mk_row(rng, r0 + 1 if shape == "leading-blank-first" else r0, rng.randint(1, 20), False)
+            pair = [lead, other] if shape == "leading-blank-first" else [other, lead]
+            apart = mk_row(rng, far, rng.randint(1, 10), False)
+            loads.append(pair + [apart] if rng.random() < 0.5 else [lead, apart])
+            continue
         nrows = rng.choice([2, 2, 3, 3, 4]) if i == k else rng.choice([1, 1, 2])
         if rng.random() < 0.3:
             start = rng.randint(1, 16 - nrows)
             rows = list(range(start, start + nrows))
         else:
             rows = rng.sample(range(1, 16), nrows)
-        loads.append([mk_row(rng, r, rand_len(rng, p_long), rich) for r in rows])
+        loads.append([lead_row(rng, r) if rng.random() < 0.08 else mk_row(rng, r, rand_len(rng, p_long), rich) for r in rows])
     return mode, doubled, loads, k
 
 
@@ -220,7 +242,7 @@ def run(ctx):
     res["distribution"] = dist
     cases = []       # (gid, mode, doubled, loads, stream)
     ngroups = ctx.n(110, 3000)
-    fixed = [(sh, m, d) for sh in ("break+repos", "trailing-blank") for m in ("pop", "paint", "roll2", "roll3", "roll4")
+    fixed = [(sh, m, d) for sh in ("break+repos", "trailing-blank", "leading-blank-first", "leading-blank-later") for m in ("pop", "paint", "roll2", "roll3", "roll4")
              for d in (False, True)]
     for gid in range(ngroups + len(fixed)):
         if gid < len(fixed):
@@ -250,6 +272,8 @@ def run(ctx):
         rows = [r for l in loads for r in l if r["hi"] != ""]
         dist["rows_over_32"] += sum(1 for r in rows if len(r["lo"]) > 32)
         dist["rows_at_32_or_33"] += sum(1 for r in rows if len(r["hi"]) in (32, 33))
+        dist["rows_over_32_only_with_leading_blanks"] = dist.get("rows_over_32_only_with_leading_blanks", 0) + sum(
+            1 for r in rows if len(r["lo"]) > 32 >= len(r["lo"].lstrip()))
         dist["rows_with_blank_end"] += sum(1 for r in rows if r["toks"] and (r["toks"][0] == " " or r["toks"][-1] == " "))
         dist["rows_with_midrow"] += sum(1 for r in rows if any(isinstance(t, tuple) and t[0] == "mid" for t in r["toks"]))
         dist["styled_preambles"] += sum(1 for r in rows if r["style"] or r["indent"] or r["tab"])
